@@ -8,6 +8,7 @@ TABLE = {
     "C01": ("bounded.c01", "run_c01"), "C02": ("bounded.c01", "run_c02"), "C03": ("bounded.c01", "run_c03"),
     "C04": ("bounded.c04", "run_c04"), "C05": ("bounded.c04", "run_c05"), "C06": ("bounded.c04", "run_c06"), "C07": ("bounded.c04", "run_c07"),
     "C08": ("bounded.c08", "run_c08"),
+    "C09": ("bounded.c09", "run_c09"), "C10": ("bounded.c09", "run_c10"),
     "C17": ("bounded.c17", "run_c17"), "C18": ("bounded.c17", "run_c18"),
 }
 
